@@ -124,6 +124,8 @@ def process_name(
     processed_name = name
     if convert_to_snake_case:
         processed_name = str_to_snake_case(processed_name)
+    if trim_leading_underscore:
+        processed_name = processed_name.lstrip("_")
     if iskeyword(processed_name):
         processed_name += "_"
     if (
@@ -131,8 +133,6 @@ def process_name(
         and processed_name in PYDANTIC_RESERVED_FIELD_NAMES
     ):
         processed_name += "_"
-    if trim_leading_underscore:
-        processed_name = processed_name.lstrip("_")
     if plugin_manager:
         processed_name = plugin_manager.process_name(processed_name, node=node)
     if set(name) == {"_"} and not processed_name:
